@@ -3,4 +3,4 @@
 From Coq Require Import Extraction ExtrOcamlBasic ZArith.
 From V Require Import C09.Model.
 Extraction "c09_model.ml" step run init_state filter_spec cache_fresh_b disk_bad_kind disk_ok_b guarded pages
-  member_exact bkey_eqb lookup_window cand_item do_query_pre walk_blocks Z.of_N.
+  member_exact bkey_eqb lookup_window cand_item do_query_pre do_rpc_events walk_blocks Z.of_N.
